@@ -204,7 +204,8 @@ def gen_connect_retry(rng, kind):
         pre = rng.choice(["", "", "", "W", "G"]) if k else rng.choice(["", "", "W"])
         post = rng.choice(["", "", "", "W"])
         behs.append(" ".join(x for x in (pre, nxt, post) if x))
-    behs.append(rng.choice(["", "W", "H", "G", "W W", "W H", "G", "W " + rng.choice(live)]))
+    behs.append(rng.choice(["", "W", "H", "G", "W W", "W H", "G", "W " + rng.choice(live), rng.choice(live) + " W",
+                            rng.choice(live) + " H", rng.choice(live) + " W H"]))
     behs.append(rng.choice(["", "W", "H"]))
     ops += ["R"] * rng.randint(3, 6)
     if rng.random() < 0.5:
@@ -212,6 +213,20 @@ def gen_connect_retry(rng, kind):
     if rng.random() < 0.5:
         ops += ["C", "R", "R"]
     return "%s ; %s ; %s ; " % (kind, " ".join(ops), " | ".join(behs))
+
+
+def gen_connect_slow(rng):
+    """A tcp connect whose handshake stays incomplete, with uv_shutdown / uv_write issued while it is pending."""
+    ops = [rng.choice(["Th", "Th", "Tc"])]
+    if ops[0] == "Tc":
+        ops += ["R"]
+    for _ in range(rng.randint(1, 5)):
+        ops.append(rng.choice(["W", "H", "R", "R", "W"]))
+    ops += ["R", "R"]
+    if rng.random() < 0.7:
+        ops += ["C", "R", "R"]
+    behs = [rng.choice(["Th", "Th H", "Th W", "W Th", "", "H Th"]), rng.choice(["", "W", "H"]), ""]
+    return "t ; %s ; %s ; " % (" ".join(ops), " | ".join(behs))
 
 
 def gen_shortage(rng, mode):
@@ -604,7 +619,7 @@ def connect_monitor(case, out):
             n_cb += 1
             if r in pending:
                 pending.remove(r)
-            nxt = next((v for v in toks[i + 1:] if v[0] not in "qz"), "")
+            nxt = next((v for v in toks[i + 1:] if v[0] not in "qzvy"), "")
             if st == -125 and not (nxt == "x" or nxt.endswith(":-125")):
                 return None, "request %d cancelled (UV_ECANCELED) although the handle was not being destroyed" % r
         elif t[0] == "x":
@@ -782,6 +797,7 @@ def run_mode(chk, name, harness_cmd, model_cmd, cases, model_input, monitor, fir
     for i, l in zip(usable, b_us):
         b[i] = l
     nbad = 0
+    pend_reports = []      # (has a failing-input verdict, what, replay): those with a verdict are reported first
     for c, al, bl, mi in zip(cases, a, b, minp):
         impl_trace = al.split(";")[0]
         chk.count(name, c + "=>" + impl_trace)
@@ -801,12 +817,12 @@ def run_mode(chk, name, harness_cmd, model_cmd, cases, model_input, monitor, fir
         if it != mt:
             chk.cov["disagreements_checked"] += 1
             nbad += 1
-            if nbad <= 3:
-                reason = verdict[1] if verdict and verdict[0] is None else None
-                chk.violation("%s: implementation and model disagree%s" % (name, (": " + reason) if reason else ""),
-                              {"kind": "correspondence", "obligation": name, "case": c, "impl": al,
-                               "model": bl, "model_input": mi, "monitor": reason},
-                              found_input=reason is not None)
+            reason = verdict[1] if verdict and verdict[0] is None else None
+            if len(pend_reports) < 400:
+                pend_reports.append((reason is not None,
+                                     "%s: implementation and model disagree%s" % (name, (": " + reason) if reason else ""),
+                                     {"kind": "correspondence", "obligation": name, "case": c, "impl": al,
+                                      "model": bl, "model_input": mi, "monitor": reason}))
         elif verdict:
             key, reason = verdict
             f = chk.match_known(key) if key else None
@@ -815,11 +831,13 @@ def run_mode(chk, name, harness_cmd, model_cmd, cases, model_input, monitor, fir
                 chk.cov.setdefault("known_finding_cases", {}).setdefault(key, c)
             else:
                 nbad += 1
-                if nbad <= 3:
-                    chk.violation("%s: trace violates the property: %s%s"
-                                  % (name, reason, (" [unlisted finding %s]" % key) if key else ""),
-                                  {"kind": "monitor", "obligation": name, "case": c, "impl": al, "key": key},
-                                  found_input=True)
+                if len(pend_reports) < 400:
+                    pend_reports.append((True, "%s: trace violates the property: %s%s"
+                                         % (name, reason, (" [unlisted finding %s]" % key) if key else ""),
+                                         {"kind": "monitor", "obligation": name, "case": c, "impl": al, "key": key}))
+    pend_reports.sort(key=lambda t: (not t[0], len(t[2].get("case", ""))))     # verdicts first, short cases first
+    for found, what, rp in pend_reports[:3]:
+        chk.violation(what, rp, found_input=found)
     chk.corr(name, len(cases))
     return a
 
@@ -853,11 +871,16 @@ FIXED = {
             "i ; Mtudtudtudt Mtudtudtud R R N " + "Af T N " * 20 + "; ; ",
             "i ; " + "Mt R " * 9 + "F1 Mt R N Mu R N " + "Af " * 11 + "; ; ",   # growth allocation fails
             "i ; Mt R F1 Mu R N Md R N Af Af Af ; ; "],                    # first allocation fails
-    "con-t": ["t ; Tc R R R R R ; Tl | Tl | W ; ", "t ; Tc R R R R C R R ; Tc | Tl | W H ; ", "t ; Tl R R R ; W G ; ",
+    "con-t": ["t ; Tl R W R R R R C R R ; | Tc | ; ", "t ; Tl R W R R R R ; | Tl | ; ", "t ; Tc W R R R R R ; | Tl | ; ", "t ; Tc W H R R R R R ; | Tl | ; ",
+              "t ; Th H R R R C R R ; ; ", "t ; Th W H R R R C R R ; ; ", "t ; Th R W R H R R C R R ; ; ", "t ; Th R R R C R R ; ; ",
+              "t ; Tc R R R R ; Th H | W ; ", "t ; Tl R W H R R C R R ; ; ", "t ; Tl W H R R R C R R ; ; ",
+              "t ; Tc R R R R R ; Tl | Tl | W ; ", "t ; Tc R R R R C R R ; Tc | Tl | W H ; ", "t ; Tl R R R ; W G ; ",
               "t ; B Tl R R C R ; ; ", "t ; B Tl R R Tl R R C R ; ; ", "t ; b T6 R T6 Tl R R C R ; ; ", "t ; Tl R Tc Tc R C R ; ; e101 e99 e24", "t ; Tl Tc R R ; Tc Tl ; s24 p s23",
               "t ; Tl R R C R ; ; ", "t ; Tc R R C R ; ; ", "t ; Tl C R R ; ; ", "t ; B Tl R R C R ; Tl ; ",
               "t ; Tl Tl R R C R ; ; e4 e111"],
-    "con-p": ["p ; Pm R R R R ; Pl | W ; ", "p ; Pn R R R C R R ; Pl | W H ; ", "p ; Pm R R R R ; Pm | W Pl | G ; ",
+    "con-p": ["p ; Pm W R R R R R ; | Pl | ; ", "p ; Pm W H R R R R R ; | Pl | ; ", "p ; Pl R W R R R R C R R ; | Pl | ; ",
+              "p ; Pl W H R R R C R R ; ; ", "p ; Pm W H R R Pl R R C R R ; ; ", "p ; Pm H R R R ; Pl | ; ",
+              "p ; Pm R R R R ; Pl | W ; ", "p ; Pn R R R C R R ; Pl | W H ; ", "p ; Pm R R R R ; Pm | W Pl | G ; ",
               "p ; Pf R R Pl R R C R ; ; ", "p ; Q0f R Pf R C R ; ; ", "p ; Pl R Pm R Po R Pe R Pn R C R ; ; ", "p ; Q1o Q2l Q0z Q0e Q0o R C R ; ; ", "p ; Pm C R ; ; s24",
               "p ; Q0l Q0m R R C R R ; ; ",                               # a second connect while one is pending
               "p ; Pl Pm Po R R C R R ; ; ", "p ; Pl Pm Q0m C R R ; ; ", "p ; Pm Pl R Pl Pn Pe R R C R ; Pm Pl | | Pl ; "],
@@ -916,7 +939,7 @@ def main():
         "srv-t": [gen_server(rng, "t") for _ in range(300 * mult)] + [gen_shortage(rng, "t") for _ in range(30 * mult)],
         "srv-u": [gen_server(rng, "u") for _ in range(350 * mult)] + [gen_shortage(rng, "u") for _ in range(30 * mult)],
         "ipc": [gen_ipc(rng) for _ in range(600 * mult)] + [gen_ipc_burst(rng) for _ in range(250 * mult)],
-        "con-t": [gen_connect(rng, "t") for _ in range(700 * mult)] + [gen_connect_retry(rng, "t") for _ in range(150 * mult)],
+        "con-t": [gen_connect(rng, "t") for _ in range(700 * mult)] + [gen_connect_retry(rng, "t") for _ in range(150 * mult)] + [gen_connect_slow(rng) for _ in range(60 * mult)],
         "con-p": [gen_connect(rng, "p") for _ in range(700 * mult)] + [gen_connect_retry(rng, "p") for _ in range(150 * mult)],
         "w": write_table(),
     }
